@@ -583,8 +583,16 @@ def _s3(program, res):
     # item.get_column_names: the constructor therefore has to hold terms only
     lt = program.cls("expr_rep", "ListTerm").methods.get("__init__")
     res.analysed(lt)
-    wraps = any(isinstance(st, ast.Assign) and unparse(st.targets[0]) == "self.value"
-                and any(isinstance(c, ast.Call) and (dotted_name(c.func) or "") in ("Value", "enc_value") for c in ast.walk(st.value)) for st in ast.walk(lt.node))
+    def _wrapping_call(c):
+        if not isinstance(c, ast.Call):
+            return False
+        if (dotted_name(c.func) or "") in ("Value", "enc_value"):
+            return True
+        if isinstance(c.func, ast.Name):
+            h_ = next((h for h in ast.walk(lt.node) if isinstance(h, ast.FunctionDef) and h.name == c.func.id and h is not lt.node), None)
+            return h_ is not None and any(isinstance(x, ast.Call) and (dotted_name(x.func) or "") in ("Value", "enc_value") for x in ast.walk(h_))
+        return False
+    wraps = any(isinstance(st, ast.Assign) and unparse(st.targets[0]) == "self.value" and any(_wrapping_call(c) for c in ast.walk(st.value)) for st in ast.walk(lt.node))
     if wraps:
         res.ok("C12-S3", "ListTerm holds terms: plain items given to it are wrapped as values")
     else:
